@@ -360,11 +360,25 @@ def namedtuple_fields(model, attr_or_name):
                     return [e.value for e in a.elts if isinstance(e, ast.Constant)]
                 if isinstance(a, ast.Constant) and isinstance(a.value, str):
                     return a.value.replace(',', ' ').split()
-    for (m, name), v in model.module_bindings.items():
-        if name == attr_or_name and isinstance(v, ast.Call) and norm(v.func).split('.')[-1] == 'namedtuple' and len(v.args) == 2:
-            a = v.args[1]
-            if isinstance(a, (ast.List, ast.Tuple)):
-                return [e.value for e in a.elts if isinstance(e, ast.Constant)]
+    def of_binding(name):
+        for (m, nm), v in model.module_bindings.items():
+            if nm == name and isinstance(v, ast.Call) and norm(v.func).split('.')[-1] == 'namedtuple' and len(v.args) == 2:
+                a = v.args[1]
+                if isinstance(a, (ast.List, ast.Tuple)):
+                    return [e.value for e in a.elts if isinstance(e, ast.Constant)]
+                if isinstance(a, ast.Constant) and isinstance(a.value, str):
+                    return a.value.replace(',', ' ').split()
+        return None
+    r = of_binding(attr_or_name)
+    if r is not None:
+        return r
+    # `self.PostedEvent = PostedEvent` / `= _POSTED_EVENT`: the record class built once at module level and bound to the instance
+    for f in model.all_funcs():
+        for n in walk_shallow(f.node):
+            if isinstance(n, ast.Assign) and isinstance(n.value, ast.Name) and any((dotted(t) or '').split('.')[-1] == attr_or_name for t in n.targets):
+                r = of_binding(n.value.id)
+                if r is not None:
+                    return r
     return None
 
 
